@@ -83,4 +83,49 @@ CheckedAccepts(a) ==
       [] a.kind \in {"negzero", "min_positive", "one_minus_ulp"} -> TRUE
       [] a.kind \in {"nan", "posinf", "neginf", "one_plus_ulp", "minus_min_positive"} -> FALSE
       [] OTHER -> FALSE
+
+\* ------------------------------------------------- closed-form family "big lists"
+\* Lists of 10^5 .. 10^6 operands are never written down: a list is ONE dominant element (value
+\* dom) at position pos (1-based) plus, class after class, mult copies of the value x for every
+\* class <<x, mult>> (x in units of 1e-9 of the dominant element in the traces).  The exact
+\* linear sum and every prefix sum are closed forms; ProbAlgebraMC proves them equal to Sum /
+\* CumSums of the expanded list for small multiplicities (BigLemmas).
+RECURSIVE ClassTotal(_, _, _)
+ClassTotal(cl, i, acc) == IF i > Len(cl) THEN acc ELSE ClassTotal(cl, i + 1, acc + cl[i][1] * cl[i][2])
+RECURSIVE ClassCount(_, _, _)
+ClassCount(cl, i, acc) == IF i > Len(cl) THEN acc ELSE ClassCount(cl, i + 1, acc + cl[i][2])
+BigSumClosed(cl, dom) == dom + ClassTotal(cl, 1, 0)
+\* sum of the first j tail elements
+RECURSIVE TailPrefix(_, _, _, _)
+TailPrefix(cl, i, j, acc) ==
+    IF i > Len(cl) \/ j <= 0 THEN acc
+    ELSE TailPrefix(cl, i + 1, j - cl[i][2], acc + cl[i][1] * (IF j < cl[i][2] THEN j ELSE cl[i][2]))
+\* sum of the first k elements of the whole list
+BigPrefixClosed(cl, dom, pos, k) ==
+    IF k >= pos THEN dom + TailPrefix(cl, 1, k - 1, 0) ELSE TailPrefix(cl, 1, k, 0)
+\* the explicit list (only for the lemma)
+RECURSIVE Repeat(_, _, _)
+Repeat(x, n, acc) == IF n <= 0 THEN acc ELSE Repeat(x, n - 1, Append(acc, x))
+RECURSIVE TailList(_, _, _)
+TailList(cl, i, acc) == IF i > Len(cl) THEN acc ELSE TailList(cl, i + 1, Repeat(cl[i][1], cl[i][2], acc))
+Expand(cl, dom, pos) ==
+    LET t == TailList(cl, 1, << >>) IN SubSeq(t, 1, pos - 1) \o <<dom>> \o SubSeq(t, pos, Len(t))
+
+\* integration grids with 10^5 .. 10^6 points: density = ONE peak cell kp (value peak) on a
+\* piecewise constant floor (x1 for grid indices < h, x2 for indices >= h; 0-based indices
+\* 0..n-1).  The weighted sum  sum_k W(k) * y(k)  of the rule is a closed form.
+TrapzWBefore(n, h)   == IF h <= 0 THEN 0 ELSE IF h >= n THEN 2 * (n - 1) ELSE 2 * h - 1      \* sum of W(k), k < h
+SimpsonWBefore(n, h) == IF h <= 0 THEN 0 ELSE IF h >= n THEN 3 * (n - 1)
+                        ELSE 1 + 4 * (h \div 2) + 2 * ((h - 1) \div 2)
+TrapzWAt(n, k)   == IF k = 0 \/ k = n - 1 THEN 1 ELSE 2
+SimpsonWAt(n, k) == IF k = 0 \/ k = n - 1 THEN 1 ELSE IF k % 2 = 1 THEN 4 ELSE 2
+\* rule = "trapz" / "simpson";  result in the units of x1, x2, peak
+PeakFloorClosed(rule, n, kp, h, x1, x2, peak) ==
+    LET wb  == IF rule = "trapz" THEN TrapzWBefore(n, h) ELSE SimpsonWBefore(n, h)
+        wt  == IF rule = "trapz" THEN 2 * (n - 1) ELSE 3 * (n - 1)
+        wk  == IF rule = "trapz" THEN TrapzWAt(n, kp) ELSE SimpsonWAt(n, kp)
+        fl  == IF kp < h THEN x1 ELSE x2
+    IN  wb * x1 + (wt - wb) * x2 - wk * fl + wk * peak
+PeakFloorSamples(n, kp, h, x1, x2, peak) ==
+    [i \in 1..n |-> IF i - 1 = kp THEN peak ELSE IF i - 1 < h THEN x1 ELSE x2]
 =============================================================================
